@@ -469,6 +469,9 @@ def run(ctx: Ctx):
     # dict displays (observed keys in any order, several new keys): fix makes the comparison hold, the other categories keep the value; Model/DictAssign.v
     from .. import dictassign as da
     da.check_part(ctx, 150 if not ctx.thorough else 2000, "C05")
+    # `in` snapshots whose previous value is no list display (tuple, set, frozenset, dict): category and written members vs Model/CollReplace.v
+    from .. import collreplace as cr
+    cr.check_part(ctx, 160 if not ctx.thorough else 2400, "C05")
     ctx.sample({"case": cases[0], "test": obs[0].get("source"), "after": obs[0].get("after")})
     ctx.sample({"case": cases[1], "observation": {k: obs[1].get(k) for k in ("results", "missing", "incorrect", "reported", "value")}})
     # lists / tuples / dict displays / constructor calls nested in each other: a run without fix keeps the value (update is value preserving) vs Model/Nest.v
@@ -500,6 +503,9 @@ def replay(ctx: Ctx, data):
         o = run_never_corpus(data["case"]["source"])
         print(o)
         return not o.get("error") and o["before"] == o["after"]
+    if isinstance(data.get("case"), dict) and data["case"].get("kind") == "collreplace":
+        from .. import collreplace as cr
+        return cr.replay_case(data["case"]["case"])
     if isinstance(data.get("case"), dict) and data["case"].get("kind") == "xclass":
         o = run_xclass(data["case"]["expr"])
         print(o)
